@@ -8,7 +8,7 @@ from props._design import *  # noqa: F401,F403
 from props import _design as D
 
 ID = "C05"
-PROP_FILES = ["Properties/C05.v"]
+PROP_FILES = ["Properties/C05.v", "Properties/C05_rank.v"]
 THEOREMS = ["C05_group_block", "C05_onehot_kron", "C05_group_labels"]
 ASSUMPTIONS = ["fully crossed data for the rank part", "integer-valued numerics"]
 RULE = ("effect expressions (intercept, numeric, categorical, transforms, interactions, sums; with and without "
